@@ -463,6 +463,90 @@ def r5(ctx):
            "no periodic resend: an unacknowledged reliable send neither completes nor fails")
 
 
+SIZE_MUTATORS = {"append", "remove", "pop", "clear", "insert", "extend", "popleft", "appendleft", "discard", "add"}
+
+
+def _is_snapshot(fn_node, it, path: str, depth=0) -> bool:
+    """`it` evaluates to a copy of the container at `path` taken before the loop starts."""
+    if isinstance(it, ast.Subscript) and ap(it.value) == path and isinstance(it.slice, ast.Slice) \
+            and it.slice.lower is None and it.slice.upper is None and it.slice.step is None:
+        return True
+    if isinstance(it, ast.Call):
+        fn = ap(it.func) or ""
+        if fn in ("list", "tuple", "sorted", "set", "frozenset", "copy.copy", "copy") and it.args and ap(it.args[0]) == path:
+            return True
+        if fn == f"{path}.copy":
+            return True
+    if isinstance(it, ast.Name) and depth < 3:
+        v = single_assign(fn_node, it.id)
+        return v is not None and _is_snapshot(fn_node, v, path, depth + 1)
+    return False
+
+
+def r6(ctx):
+    repo = ctx.repo
+    ctx.rule("C19.R6", "subscriber lists are iterated over a snapshot whenever the loop body can change them "
+                       "(handlers unsubscribing during notify must not make the loop skip the next subscriber)")
+    from .common import class_methods_reachable
+    ev = repo.cls("Event", "hippolyzer/lib/base/events.py")
+    path = "self.subscribers"
+    n = 0
+    for f in ev.methods.values():
+        mutating = {g.name for g in ev.methods.values()
+                    if any(st.path == path and ((st.kind == "mutcall" and st.method in SIZE_MUTATORS) or st.kind in ("delitem",))
+                           for st in stores(g.node))}
+        for loop in [x for x in walk(f.node) if isinstance(x, (ast.For, ast.AsyncFor))]:
+            it = loop.iter
+            base = it
+            while isinstance(base, ast.Call) and base.args:
+                base = base.args[0]
+            while isinstance(base, ast.Subscript):
+                base = base.value
+            if isinstance(base, ast.Name):
+                v = single_assign(f.node, base.id)
+                if v is None:
+                    continue
+                b2 = v
+                while isinstance(b2, ast.Call) and b2.args:
+                    b2 = b2.args[0]
+                while isinstance(b2, ast.Subscript):
+                    b2 = b2.value
+                if ap(b2) != path:
+                    continue
+            elif ap(base) != path:
+                continue
+            n += 1
+            body = ast.Module(body=loop.body, type_ignores=[])
+            elems = {x.id for x in ast.walk(loop.target) if isinstance(x, ast.Name)}
+            for st in stores(body, into_defs=False):
+                if st.kind == "assign" and isinstance(st.value, ast.Name) and st.value.id in elems:
+                    elems |= {x.id for x in ast.walk(st.target) if isinstance(x, ast.Name)}
+            why = []
+            for c in calls(body, into_defs=True):
+                fn = c.func
+                if isinstance(fn, ast.Attribute) and ap(fn.value) == path and fn.attr in SIZE_MUTATORS:
+                    why.append(norm(c))
+                elif isinstance(fn, ast.Attribute) and isinstance(fn.value, ast.Name) and fn.value.id == "self":
+                    m = repo.lookup_method(ev, fn.attr)
+                    if m is not None and any(g.name in mutating for g in class_methods_reachable(repo, m, depth=2)):
+                        why.append(norm(c))
+                elif isinstance(fn, ast.Name) and fn.id in elems:
+                    why.append(f"{norm(c)} (subscriber callback, may unsubscribe)")
+            if not why:
+                ctx.ob("C19.R6", f"{f.qual}: loop over {norm(it)} does not change the subscriber list", True, ctx.w(f, loop))
+                continue
+            snap = _is_snapshot(f.node, it, path)
+            # newest-first walk that removes only the current element is the one safe in-place idiom
+            rev_safe = isinstance(it, ast.Call) and ap(it.func) == "reversed" and it.args and ap(it.args[0]) == path and \
+                all(w.startswith(f"{path}.remove(") and isinstance(loop.target, ast.Name)
+                    and w == f"{path}.remove({loop.target.id})" for w in why)
+            ctx.ob("C19.R6", f"{f.qual}: loop over the subscriber list whose body can change it iterates a snapshot",
+                   snap or rev_safe, ctx.w(f, loop),
+                   f"iterates `{norm(it)}` directly while the body reaches {why[:3]}: a subscriber that unsubscribes "
+                   f"during notification shifts the list and the next subscriber is skipped (its message is lost)")
+    ctx.floor("C19.R6", "loops over Event.subscribers", n, 2)
+
+
 def run(ctx):
     dr, ex, outs = receive_paths(ctx)
     msgs = [ap(st.target) for st in stores(dr.node, into_defs=False) if st.kind == "assign" and isinstance(st.value, ast.Call)
@@ -474,5 +558,6 @@ def run(ctx):
     r3(ctx, dr, ex, outs, msg)
     r4(ctx)
     r5(ctx)
+    r6(ctx)
     ctx.assume("delivery counts over arrival sequences are not decided statically")
     ctx.assume("message_handler.handle() does not raise for subscriber errors (Event.notify guards subscribers, C07.R2)")
